@@ -420,7 +420,37 @@ def run(ctx):
                   'payload returned only under batch_item.result_status == SUCCESS', 'send_request_payload returns a payload without a dominating success test on the same batch item')
         for t, lab in se:
             check_failure_raise(ctx, 'C19.R1', 'KMIPProxy.send_request_payload', ssite, sg, srd, t, lab, bi, ('OperationFailure', 'KmipOperationFailure'))
-    # pie OperationFailure alias: kmip.pie.exceptions.KmipOperationFailure must be what kmip_client raises? (informational)
+    # nothing pre-empts the failure report: a failed item may lack its operation and payload (the server builds some failures before it has
+    # read the item), so any other raise that looks at the item's fields has to sit behind the success edge of the status test
+    ctx.rule('C19.R9', 'in KMIPProxy.send_request_payload every raise that depends on a field of the batch item other than its status (operation, payload, ...) is dominated by the success edge of the status test: a failed item - whose operation and payload may be absent - is always reported as OperationFailure with its own status, reason and message, never as a malformed response')
+    all_se = []
+    for r in rets:
+        rf = result_field(r.stmt.value, r, srd)
+        if rf:
+            all_se += success_edges(sg, srd, r, rf[0])
+    bis = set(result_field(r.stmt.value, r, srd)[0] for r in rets if result_field(r.stmt.value, r, srd))
+    n_pre = 0
+    for rn in [n for n in sg.nodes if n.kind == 'stmt' and isinstance(n.stmt, ast.Raise)]:
+        e = rn.stmt.exc
+        if isinstance(e, ast.Call) and (call_name(e) or '').split('.')[-1] in ('OperationFailure', 'KmipOperationFailure'):
+            continue
+        doms = dominating_edges(sg, rn)
+        # the tests of the if statements that enclose the raise (an `a or b` test has no single dominating edge)
+        encl = []
+        x_ = rn.stmt
+        while getattr(x_, '_parent', None) is not None and x_._parent is not srp:
+            if isinstance(x_._parent, ast.If):
+                encl.append(x_._parent.test)
+            x_ = x_._parent
+        on_item = [tt for tt in encl if any(isinstance(x, ast.Attribute) and isinstance(x.value, ast.Name) and x.value.id in bis and x.attr != STATUS for x in ast.walk(tt))]
+        if not on_item:
+            continue
+        n_pre += 1
+        behind = any((tt, lab) in [(a, b) for a, b in all_se] for tt, lab in doms)
+        ctx.check(behind, 'C19.R9', 'KMIPProxy.send_request_payload|raise %s behind the status test' % short(e, 50), '%s:%s KMIPProxy.send_request_payload' % (PROXY, rn.stmt.lineno),
+                  'raised only for a successful item', 'this raise looks at %s before the status of the item was tested: a failure response without that field is reported as %s and the server\'s status, reason and message are lost'
+                  % (sorted(set(U(tt)[:60] for tt in on_item)), short(e, 40)))
+    ctx.count('item_field_raises_in_send_request_payload', n_pre, 1)
 
     # ---------------- R2 result constructions in KMIPProxy
     rt = src.tree(RESULTS)
@@ -711,6 +741,9 @@ def run(ctx):
         ctx.fail('C19.R9', f.key, f.site, f.message)
     if not _lifted_C19_R9:
         ctx.ok('C19.R9', 'lifted from C05', 'converters drop nothing')
+    # ---------------- R10 a response cut short inside a value is refused by the decoder, not returned as data (shared with C12.R7)
+    from .c12 import check_short_reads
+    check_short_reads(ctx, 'C19.R10', tail=' - the client decodes responses with the same primitives: a response truncated or mis-sized inside such a value is returned to the caller as (shorter) data instead of raising')
     ctx.not_decided += ['that the data returned on success equals the payload values (field-by-field naming of result objects is only checked for status/reason/message)']
     ctx.assumptions += ['socket.recv(n) returns at most n bytes and b"" at end of stream']
     check_optional_batch_item_fields(ctx, src.tree(PROXY))
